@@ -21,10 +21,17 @@ REGISTRY = {
             'code before the fix commit are decide-checked counter-examples); the serializer is a total function. Model tied to /repo '
             'by exhaustive correspondence over all strings of <=4 (quick) / <=5 (thorough) tokens of the notation alphabet, random '
             'strings of <=40 tokens and single-token mutations of valid strings; exception-class and deferred-validation oracles run on '
-            'the real code (parse, serialize, is_sequence_valid, mass, comp)',
+            'the real code (parse, serialize, is_sequence_valid, mass, comp). Extension (Props/C09Ext, 8 theorems): the deferred-validation '
+            'clause for the fast path of mass inside Lean, over the mass model of C02 with the modification resolver as a parameter: '
+            'Dispatch.reachedPlaced / reachedStatic list the fields handed to mod_mass (labile only for ion type p; static rules whether or '
+            'not the target occurs); the block returns a number iff every reached field resolves, an unresolvable reached field always '
+            'raises, every error is the error of a reached field or of a named stage (fastMass_error_cases); the reached list is tied to '
+            '/repo by comparing it with the recorded mod_mass calls of the real mass and the predicted accept/reject decision with the '
+            'real outcome (mass_resolver_dispatch)',
     'note': 'trusted: Lean kernel, axioms propext/Classical.choice/Quot.sound, the correspondence harness; non-ASCII text and CPython\'s '
-            '4300-digit int limit are outside the model; the deferred-validation clause (mass/comp of unresolvable modification values) is '
-            'checked by the oracle on the real code only, it has no Lean theorem',
+            '4300-digit int limit are outside the model; deferred-validation clause: Lean theorems only for the fast path of mass (no isotope '
+            'label in force) with the resolver mod_mass and parse_static_mods as parameters; comp / the label path / mz and the resolver '
+            'itself (C10) are checked by the oracles on the real code only',
     'technique': 'Lean 4 proof about executable model + differential correspondence',
 }
 
@@ -163,6 +170,107 @@ def bulk(chk, tokens, total_len, procs):
     return st['evaluations']
 
 
+# ----------------------------------------------------------------------------- resolver dispatch (extension, round 5)
+
+DISPATCH_STATIC = ['[NotAMod]@P', '[Foo]@N-Term', '[Oxidation]@Q', '[UNIMOD:999999]@C-Term', '[Oxidation][Foo]@M', '[Phospho]^2@S,T',
+                   '[Formula:Xx2]@W', '[Acetyl]@N-Term', '[Methyl]@C-Term,K']
+DISPATCH_IONS = ['p', 'p', 'p', 'n', 'b', 'y', 'a', 'c', 'x', 'z']
+
+
+def dispatch_stage(chk, quick):
+    """Model/C09Dispatch.lean against the real `mass`: the list of modifications the fast path hands to `mod_mass`
+    (recorded by replacing mass_calc.mod_mass with a recorder that never raises), and the accept/reject decision the
+    theorems of Props/C09Ext derive from that list (raises iff a reached value is unresolvable by the real mod_mass;
+    the class raised is the class mod_mass raises for the first unresolvable reached value)."""
+    import warnings
+    from peptacular import mass_calc
+    from peptacular.proforma.proforma_parser import parse_static_mods
+    from peptacular.proforma.proforma_dataclasses import Mod
+    from .. import annot as A
+    rng = chk.rng
+    valid = A.NAMED + A.FORMULAS + A.GLYCANS + A.OTHER + A.NUMS
+    pool = valid * 3 + UNRESOLVABLE
+    kinds = ['labile', 'static', 'unknown', 'nterm', 'cterm', 'internal', 'intervals', 'charge']
+    cases = []
+    for _ in range(2500 if quick else 40000):
+        a = A.gen_annotation(rng, min_len=1, max_len=9, kinds=kinds, value_pool=pool, p=rng.choice([0.15, 0.35, 0.6]))
+        if a._static_mods is not None:
+            rules = A.STATIC + DISPATCH_STATIC
+            a._static_mods = [Mod(rng.choice(rules), 1) for _ in range(rng.randint(1, 3))]
+        cases.append((a, rng.choice(DISPATCH_IONS), rng.random() < 0.6, rng.choice([None, None, 1, 2, 3])))
+
+    def static_wire(a):
+        if a._static_mods is None:
+            return '-'
+        d = parse_static_mods(a._static_mods)
+        if not d:
+            return '-'
+        return ';'.join(esc(k) + '=' + '&'.join(A.show_mod(m) for m in ms) for k, ms in d.items())
+
+    def line(c):
+        a, ion, mono, charge = c
+        return 'reached\t%s\t%s\t%s' % ('1' if ion == 'p' else '0', A.dump(a, sort_internal=False), static_wire(a))
+
+    def call_mass(c):
+        a, ion, mono, charge = c
+        with warnings.catch_warnings():
+            warnings.simplefilter('ignore')
+            return mass_calc.mass(a, charge=charge, ion_type=ion, monoisotopic=mono)
+
+    def impl(c):
+        rec = []
+        orig = mass_calc.mod_mass
+
+        def recorder(mod, *args, **kw):
+            rec.append(mod)
+            return 0.0
+        mass_calc.mod_mass = recorder
+        try:
+            call_mass(c)
+        finally:
+            mass_calc.mod_mass = orig
+        calls = ';'.join(A.show_mod(m) if isinstance(m, Mod) else A.show_mod(Mod(m, 1)) for m in rec)
+        try:
+            v = call_mass(c)
+            out = 'OK' if isinstance(v, float) else 'OK?' + type(v).__name__
+        except Exception as e:  # noqa
+            out = 'ERR:' + type(e).__name__ + (':VF' if isinstance(e, ValueError) else ':other')
+        chk.count('dispatch outcome ' + out.split(':')[0])
+        if c[1] != 'p' and c[0]._labile_mods:
+            chk.count('dispatch: labile present, fragment ion type (not reached)')
+        return 'R%s|%d|%s' % (calls, 1 if c[2] else 0, out)
+
+    verdict = {}
+
+    def resolver_verdict(wire, mono):
+        k = (wire, mono)
+        if k not in verdict:
+            try:
+                mass_calc.mod_mass(A.parse_mod(wire), mono)
+                verdict[k] = None
+            except Exception as e:  # noqa
+                verdict[k] = type(e).__name__ + (':VF' if isinstance(e, ValueError) else ':other')
+        return verdict[k]
+
+    def compare(im, m):
+        if not im.startswith('R') or not m.startswith('R') or im.count('|') != 2:
+            return False
+        calls, mono, out = im[1:].split('|')
+        if calls != m[1:]:
+            return False                 # the model's reached list is not the recorded call sequence
+        expect = 'OK'
+        for w in ([x for x in m[1:].split(';')] if m[1:] else []):
+            v = resolver_verdict(w, mono == '1')
+            if v is not None:
+                expect = 'ERR:' + v      # the first unresolvable reached value decides, with its own exception class
+                break
+        return out == expect and (out == 'OK' or out.endswith(':VF'))
+
+    chk.count('dispatch cases', len(cases))
+    chk.correspond('mass_resolver_dispatch', DRV, cases, line, impl, compare=compare,
+                   nontrivial_fn=lambda c, im: len(im) > 8 and 'ERR' in im)
+
+
 # ----------------------------------------------------------------------------- run
 
 def run(chk):
@@ -171,18 +279,21 @@ def run(chk):
     tier = chk.tier
     rng = chk.rng
     quick = tier == 'quick'
-    chk.lean_build(['PeptVerif.Props.C09'], DRV)
+    chk.lean_build(['PeptVerif.Props.C09', 'PeptVerif.Props.C09Ext'], DRV)
     chk.trusted += [
         'modelled: _ProFormaParser (all phases, cursor, chain loop), _is_unmodified, parse, convert_type on ASCII, the serializer; '
         'Python exception classes are values of Err (ProFormaFormatError, ValueError, IndexError, TypeError, ...); '
-        'not modelled: mod_mass / mod_comp / parse_static_mods / parse_isotope_mods (the deferred-validation clause is oracle-only), '
+        'modelled (extension): which modification fields the fast path of mass hands to mod_mass, in call order (Dispatch.reachedPlaced, '
+        'Dispatch.reachedStatic; correspondence mass_resolver_dispatch records the real calls); '
+        'not modelled: mod_mass / mod_comp / parse_static_mods / parse_isotope_mods themselves (parameters of the theorems; oracle-only), '
         'is_sequence_valid (oracle: True iff parse accepts), non-ASCII input, the 4300-digit int limit',
     ]
 
     chk.assumptions += [
         'input text is ASCII (CPython int()/float()/str.isdigit also accept non-ASCII digits and spaces: outside the model)',
         'strings shorter than CPython\'s 4300-digit int conversion limit',
-        'deferred-validation clause: checked on the real code only (no Lean model of mod_mass / mod_comp)',
+        'deferred-validation clause: the dispatch of the fast path of mass is modelled (Model/C09Dispatch.lean over Model/Mass.lean) with '
+        'mod_mass and parse_static_mods as parameters; comp, the isotope-label path and the resolver itself: real code only',
     ]
 
     def oracle_exc(s):
@@ -686,6 +797,8 @@ def run(chk):
     chk.count('deferred-validation history cases', len(hs_cases))
     chk.oracle('deferred_validation_after_valid_calls', hs_cases, o_params, key_fn=lambda c: c[1] + repr(c[3]))
 
+    dispatch_stage(chk, quick)
+
     chk.rule = (f'exhaustive: every string of <= {depth} tokens over the {len(L.TOKENS)}-token notation alphabet '
                 '(residues P,E; all bracket kinds; ? - + / ^ @ # | : , . ; digits 1,0; the name Oxidation; backslash; space); random strings '
                 'of <= 40 tokens over that alphabet and a wider one (more residues, N-Term, e, _, inf, nan, Formula:, tab, //); single-token '
@@ -694,7 +807,8 @@ def run(chk):
                 'same kind at the same position or target in every order (never masked, never silently zero), valid pairs are additive; non-trivial = the string is accepted with at least one '
                 'modification or several chains (exhaustive), longer than 3 characters (oracle)')
     if not quick:
-        chk.leanchecker(['PeptVerif.Props.C09', 'PeptVerif.Lemmas.ParserTotal', 'PeptVerif.Model.Serialize', 'PeptVerif.Model.Parser',
+        chk.leanchecker(['PeptVerif.Props.C09Ext', 'PeptVerif.Lemmas.C09Dispatch', 'PeptVerif.Model.C09Dispatch',
+                         'PeptVerif.Props.C09', 'PeptVerif.Lemmas.ParserTotal', 'PeptVerif.Model.Serialize', 'PeptVerif.Model.Parser',
                          'PeptVerif.Model.ModText'])
     return chk.finish(classify)
 
